@@ -47,6 +47,16 @@ def r_iter_readitems(F, R):
                     ok_range = ok_range or good
                     if not good:
                         bad_range.append(show(nd))
+                if nd[0] == "agg" and nd[1] != "Range::Range" and not str(nd[1]).startswith("closure:") and len(nd[2]) >= 2:
+                    # the iterator keeps the two cursors as fields of its own instead of a Range:
+                    # the item's start and end, in that order
+                    ss = [i for i, c in enumerate(nd[2]) if c[0] == "place" and c[3][-1:] == ("f:start",)]
+                    ee = [i for i, c in enumerate(nd[2]) if c[0] == "place" and c[3][-1:] == ("f:end",)]
+                    if len(ss) == 1 and len(ee) == 1 and nd[2][ss[0]][3][:-1] == nd[2][ee[0]][3][:-1]:
+                        if ss[0] < ee[0]:
+                            ok_range = True
+                        else:
+                            bad_range.append(show(nd))
                 if nd[0] == "call" and nd[1] == ("slice", "iter") and nd[2] and nd[2][0][0] == "place" and \
                         len(nd[2][0][3]) >= 2 and nd[2][0][3][-2].startswith("v:") and nd[2][0][3][-1] == "f:0":
                     ok_owned = True  # the owned representation (Err on the pinned tree, any variant of a private either-type)
